@@ -243,6 +243,50 @@ def _s3(program, res):
             res.fail_at("C18-S3", m, "sort-keys", f"{nm} order_rows sorts by {by}")
 
 
+def position_primitives_rule(program, res, rule="C18-S4"):
+    """a primitive that numbers rows in their *incoming* order (groupby.cumcount) may realise an operator only if the builder guarantees an
+    ordered window for it, or under a test that the window is ordered; otherwise the value depends on the order of the input rows"""
+    er = program.module("expr_rep")
+    oset = er.consts.get("fn_names_that_imply_ordered_windowed_situation")
+    if not isinstance(oset, ast.Set):
+        raise AnalysisError("anchor vanished: expr_rep.fn_names_that_imply_ordered_windowed_situation")
+    ordered_only = {e.value.lstrip("_") for e in oset.elts if isinstance(e, ast.Constant)}
+    pe = program.method("pandas_base", "PandasModelBase", "_extend_step", inherited=False)
+    res.analysed(pe)
+    g = cfgmod.build(pe.node)
+    n = 0
+    for nd in g.stmt_nodes(("stmt",)):
+        if not any(isinstance(c, ast.Call) and isinstance(c.func, ast.Attribute) and c.func.attr == "cumcount" for c in ast.walk(nd.stmt)):
+            continue
+        n += 1
+        guards = [b.cond for b, lab in g.lexical_guards(nd) if lab is True]
+        inner = guards[-1] if guards else None
+        if inner is None:
+            res.fail_at(rule, pe, "cumcount-unguarded", "a groupby.cumcount() result is stored without any guard on the operator", nd.stmt)
+            continue
+        # disjuncts of the innermost guard: each must be `<op> == <ordered-only name>` / `<op> in {ordered-only…}` or contain an order_by test
+        disj = inner.values if isinstance(inner, ast.BoolOp) and isinstance(inner.op, ast.Or) else [inner]
+        bad = []
+        for dj in disj:
+            txt = unparse(dj)
+            if "order_by" in txt:
+                continue
+            names = {c.value for c in ast.walk(dj) if isinstance(c, ast.Constant) and isinstance(c.value, str)}
+            if names and names <= ordered_only:
+                continue
+            bad.append((dj, sorted(names - ordered_only)))
+        if bad:
+            dj, nm = bad[0]
+            res.fail_at(rule, pe, f"position-primitive-without-order:{','.join(nm) or unparse(dj)[:30]}",
+                        f"`{unparse(nd.stmt)[:60]}` numbers the rows of a partition in their incoming order and is used for {nm or unparse(dj)[:40]} without a test "
+                        f"that the window is ordered: extend({{'n': '_{(nm or ['count'])[0]}()'}}, partition_by=['g']) returns 1,2,3 in input row order (it changes when "
+                        f"the rows are permuted; SQL returns the partition size)", nd.stmt)
+        else:
+            res.ok(rule, f"Pandas _extend_step: cumcount() is used only for operators the builder restricts to ordered windows {sorted(ordered_only & {c.value for d_ in disj for c in ast.walk(d_) if isinstance(c, ast.Constant) and isinstance(c.value, str)})} or under an order_by test")
+    if n < 1:
+        raise AnalysisError("Pandas _extend_step: cumcount() use not found")
+
+
 def run(program, res, tier):
     res.rule("C18-S1", "index-clean typestate of every Pandas step (returned frames, positional attachments)")
     res.rule("C18-S2", "sort-direction flags have the right polarity and iterate the sort keys")
@@ -250,3 +294,5 @@ def run(program, res, tier):
     typestate_rule(program, res)
     polarity_rule(program, res)
     _s3(program, res)
+    res.rule("C18-S4", "row-numbering primitives only under an ordered window")
+    position_primitives_rule(program, res)
